@@ -15,13 +15,28 @@ Definition addressed (fi : file_index) (s : suffix) (own : option Z) : list Z :=
 
 (* an atom item must be reported when its name exists in none of the addressed residues, and must not be reported
    when it exists in all of them; wildcards and range operators are never reported *)
+Definition all_residues (fi : file_index) : list Z := map fst (fi_residues fi).
+
 Definition must_report (fi : file_index) (s : suffix) (a : ratom) : Prop :=
   match a with
   | AName name own => addressed fi s own <> [] /\ forall n, In n (addressed fi s own) -> has_atom fi name n = false
+  | AStar name => all_residues fi <> [] /\ forall n, In n (all_residues fi) -> has_atom fi name n = false
   | _ => False
   end.
 Definition must_not_report (fi : file_index) (s : suffix) (a : ratom) : Prop :=
   match a with
   | AName name own => addressed fi s own <> [] /\ forall n, In n (addressed fi s own) -> has_atom fi name n = true
+  | AStar name => forall n, In n (all_residues fi) -> has_atom fi name n = true
   | _ => True
   end.
+
+(* The per-residue reading, which is the one the library follows: the (name, residue) pairs an item asks for.  A class
+   that no residue of the file carries falls back to residue 0 (the library says so in a separate message). *)
+Definition asked (fi : file_index) (s : suffix) (a : ratom) : list (str * Z) :=
+  match a with
+  | AName name own => map (pair name) (match addressed fi s own with [] => [0%Z] | l => l end)
+  | AStar name => map (pair name) (all_residues fi)
+  | ARange | AElem _ => []
+  end.
+(* the residue a message names: NAME_n names residue n, a bare NAME residue 0 *)
+Definition res_of (o : option Z) : Z := match o with Some n => n | None => 0%Z end.
